@@ -1,4 +1,5 @@
 //! qvh — verification harness for /verif (see /verif/DESIGN.md).
+mod backend;
 mod build;
 mod hdr;
 mod pure;
@@ -353,6 +354,121 @@ fn main() {
             write_lines(&format!("{}/seq.in", out), &inp);
             write_lines(&format!("{}/seq.impl", out), &imp);
             println!("fault runs={}", nruns);
+        }
+        "malformed" => {
+            // C14: valid images with corrupted metadata (header fields, L1 / L2 / reftable
+            // entries pointing anywhere, refcount bytes): opening and every operation must
+            // return Ok or Err - no panic, no hang
+            let nops: usize = m.get("ops").and_then(|s| s.parse().ok()).unwrap_or(16);
+            let mut imp = Vec::new();
+            let mut inp = Vec::new();
+            let progress = std::sync::Arc::new(std::sync::atomic::AtomicUsize::new(usize::MAX));
+            {
+                let progress = progress.clone();
+                std::thread::spawn(move || {
+                    let mut last = usize::MAX;
+                    let mut since = std::time::Instant::now();
+                    loop {
+                        std::thread::sleep(std::time::Duration::from_millis(200));
+                        let cur = progress.load(std::sync::atomic::Ordering::Relaxed);
+                        if cur != last {
+                            last = cur;
+                            since = std::time::Instant::now();
+                        } else if cur != usize::MAX && since.elapsed().as_secs() >= 10 {
+                            println!("hang case={}", cur);
+                            std::process::exit(3);
+                        }
+                    }
+                });
+            }
+            let skip: Vec<usize> = m.get("skip").map(|s| s.split(',').filter_map(|x| x.parse().ok()).collect()).unwrap_or_default();
+            let mut f_in = std::fs::File::create(format!("{}/seq.in", out)).unwrap();
+            for id in 0..n {
+                if skip.contains(&id) {
+                    continue;
+                }
+                let kind = if id % 3 == 0 { "built+back" } else { "built" };
+                let mut case = seq::gen_built_case(seed, id, seq::Profile::General, nops, kind);
+                case.l2 = None;
+                case.rb = None;
+                case.bsb = 9;
+                for op in case.ops.iter_mut() {
+                    if let seq::Op::Reopen { .. } = op {
+                        *op = seq::Op::Flush;
+                    }
+                }
+                let mut images = match std::panic::catch_unwind(|| seq::case_images(&case)) {
+                    Ok(Ok(i)) => i,
+                    _ => continue,
+                };
+                let mut rng = util::Rng::derive(seed, 14, id as u64);
+                let what = seq::mutate_image(&mut rng, &mut images.files[0]);
+                for l in case.lines() {
+                    writeln!(f_in, "{}", l).unwrap();
+                }
+                writeln!(f_in, "mut {}", what).unwrap();
+                f_in.flush().unwrap();
+                progress.store(id, std::sync::atomic::Ordering::Relaxed);
+                let files: Vec<sim::SimFile> = images
+                    .files
+                    .iter()
+                    .enumerate()
+                    .map(|(i, f)| sim::SimFile::new(if i == 0 { "top" } else { "back" }, f.clone()))
+                    .collect();
+                let mut r = seq::Runner::new(case.clone(), files, None);
+                r.quiet = true;
+                r.run();
+                imp.push(format!("case {}", case.id));
+                imp.push(format!("mut {}", what));
+                imp.extend(r.out.drain(..).filter(|l| l.contains(" res ") || l.starts_with("open")));
+                imp.push("end".into());
+                inp.push(String::new());
+            }
+            write_lines(&format!("{}/seq.impl", out), &imp);
+            println!("malformed cases={}", n);
+        }
+        "backend" => {
+            // C19: request sequences on every backend (+ requests for the Lean host-file model)
+            let dir = backend::scratch_dir();
+            let mut req_lines = Vec::new();
+            let mut res_lines = Vec::new();
+            for id in 0..n {
+                let mut rng = util::Rng::derive(seed, 19, id as u64);
+                let (large, dio) = match id % 8 {
+                    6 => (true, false),
+                    7 => (false, true),
+                    _ => (false, false),
+                };
+                let reqs = backend::gen_requests(&mut rng, if large { 12 } else { 40 }, large, dio);
+                req_lines.push(format!("case {} large={} dio={}", id, large as u8, dio as u8));
+                for r in &reqs {
+                    req_lines.push(r.text());
+                }
+                req_lines.push("end".into());
+                res_lines.push(format!("case {}", id));
+                for (name, lines) in backend::run_all(&reqs, &dir, &format!("c{}", id), dio) {
+                    for (i, l) in lines.iter().enumerate() {
+                        res_lines.push(format!("{} {} {}", name, i, l));
+                    }
+                }
+                res_lines.push("end".into());
+            }
+            // guest-level histories on every backend
+            let ng = m.get("guest").and_then(|s| s.parse().ok()).unwrap_or(n / 4);
+            for id in 0..ng {
+                let case = seq::gen_case(seed, 100000 + id, seq::Profile::General, 30);
+                if let Ok(img) = util::format_image(case.size, case.cb, case.ro, 1 << case.bsb) {
+                    res_lines.push(format!("guest {}", case.id));
+                    for (name, sweep) in backend::guest_on_backends(&case, &img, &dir) {
+                        res_lines.push(format!("{} sweep {}", name, sweep));
+                    }
+                    res_lines.push("end".into());
+                }
+            }
+            let _ = std::fs::remove_dir_all(&dir);
+            write_lines(&format!("{}/backend.in", out), &req_lines);
+            write_lines(&format!("{}/backend.impl", out), &res_lines);
+            println!("backend cases={} guest={}", n, ng);
         }
         "respond" => {
             // answer request lines from a file (replay)
